@@ -14,6 +14,8 @@ import (
 	"encoding/binary"
 	"errors"
 	"fmt"
+	"math"
+	"sort"
 	"strings"
 )
 
@@ -552,4 +554,58 @@ func LengthSites(b []byte, t byte, start int) []int {
 	d := decoder{b: b, off: start, record: true}
 	d.value(t, 0)
 	return d.sites
+}
+
+// CanonKey renders a tree with sets and maps in sorted order and doubles by
+// numeric value (+0 and -0 alike): equal keys <=> equal wire values in the
+// sense of Thrift equality (lists ordered, sets and maps unordered).
+func CanonKey(w W) string {
+	var sb strings.Builder
+	canonKey(&sb, w)
+	return sb.String()
+}
+
+func canonKey(sb *strings.Builder, w W) {
+	switch w.T {
+	case TBool:
+		fmt.Fprintf(sb, "b%v", w.I != 0)
+	case TI8, TI16, TI32, TI64:
+		fmt.Fprintf(sb, "i%d.%d", w.T, w.I)
+	case TDouble:
+		f := math.Float64frombits(w.F)
+		if f == 0 {
+			f = 0
+		}
+		fmt.Fprintf(sb, "d%v", f)
+	case TBinary:
+		fmt.Fprintf(sb, "s%x", w.B)
+	case TStruct:
+		parts := make([]string, len(w.Fields))
+		for i, f := range w.Fields {
+			parts[i] = fmt.Sprintf("%d=%s", f.ID, CanonKey(f.V))
+		}
+		sort.Strings(parts)
+		sb.WriteString("{" + strings.Join(parts, ",") + "}")
+	case TList:
+		fmt.Fprintf(sb, "l%d[", w.VT)
+		for _, it := range w.Items {
+			canonKey(sb, it)
+			sb.WriteString(",")
+		}
+		sb.WriteString("]")
+	case TSet:
+		parts := make([]string, len(w.Items))
+		for i, it := range w.Items {
+			parts[i] = CanonKey(it)
+		}
+		sort.Strings(parts)
+		fmt.Fprintf(sb, "S%d[%s]", w.VT, strings.Join(parts, ","))
+	case TMap:
+		var parts []string
+		for i := 0; i+1 < len(w.Items); i += 2 {
+			parts = append(parts, CanonKey(w.Items[i])+":"+CanonKey(w.Items[i+1]))
+		}
+		sort.Strings(parts)
+		fmt.Fprintf(sb, "M%d.%d[%s]", w.KT, w.VT, strings.Join(parts, ","))
+	}
 }
